@@ -22,7 +22,8 @@ void _ZdlPv(u8* p) { VP_ASSERT(0, "operator delete"); }
 struct vp_df { void* vptr; void* closure; };
 #define VP_POLL(opcall, closure_ptr) struct vp_df df; df.vptr = 0; df.closure = (void*)(closure_ptr); return opcall((void*)&df);
 struct vp_c2 { void* a; void* b; };
-u8 _ZN3tbb6detail2d021timed_spin_wait_untilIZNS0_2d115waitable_atomicIbE4waitEbmSt12memory_orderEUlvE_EEbT_(struct SER_WAIT_CLOSURE* closure) {
+#include "closure_stub.h"
+VP_CLOSURE_STUB(_ZN3tbb6detail2d021timed_spin_wait_untilIZNS0_2d115waitable_atomicIbE4waitEbmSt12memory_orderEUlvE_EEbT_) {
   VP_POLL(_ZNK3tbb6detail2d118delegated_functionIZNS1_15waitable_atomicIbE4waitEbmSt12memory_orderEUlvE_EclEv, closure)
 }
 u8 _ZN3tbb6detail2d021timed_spin_wait_untilIZNS0_2d18rw_mutex11lock_sharedEvEUlvE_EEbT_(struct S_class_tbb__detail__d1__rw_mutex* m, u64* has_writer) {
